@@ -1,11 +1,13 @@
 (* C01 — Value lanes: subscribers see an ordered, gap-tolerant, never-stale view.
-   Property theorems only (Proofs/UplinksProofs.v): the runtime side, per remote, for every order of lane
-   responses, link/unlink actions and writer returns (= every remote speed).
-   Checked by correspondence + oracle on the real WriteTaskState (partial): that once every write has
-   completed the last value produced for a linked remote has been delivered, for several remotes.
-   Not modelled: the agent side (ValueLane dirty flag / write_to_buffer, command decoding) and the task
-   interleavings of the agent runtime. *)
-From SwimV Require Import Model.Uplinks Proofs.UplinksProofs.
+   Property theorems only.  Proofs/UplinksProofs.v: the runtime side, per remote, for every order of lane
+   responses, link/unlink actions and writer returns (= every remote speed).  Proofs/ValuePipelineProofs.v:
+   one value lane end to end (Model/ValuePipeline.v: the lane object's dirty flag and sync queue,
+   write_to_buffer, the routing of its responses, each remote's uplink), for any number of remotes and every
+   order of sets, sync requests, lane writes, links, unlinks and write completions.
+   Not modelled: command decoding, and the task interleavings of the agent runtime and of the agent's own loop
+   (that the loop lets a changed lane write until it has nothing left is C06's / C05's subject and is checked
+   end to end by the harness c01e). *)
+From SwimV Require Import Model.Uplinks Proofs.UplinksProofs Model.ValuePipeline Proofs.ValuePipelineProofs.
 Open Scope N_scope.
 
 (* whatever was skipped while the remote was slow, an event written for a value lane carries the value
@@ -26,3 +28,44 @@ Theorem C01_newer_value_replaces_pending : forall u l b,
   aget l (u_values (fst (push_resp u l (RValue b)))) =
   Some {| uv_queued := true; uv_synced := uv_synced (aget_or uv0 l (u_values u)); uv_cur := Some b |}.
 Proof. intros u l b EW. unfold push_resp. rewrite EW. cbn [fst u_values]. apply aget_aput_same. Qed.
+
+(* ---- one value lane end to end (Model/ValuePipeline.v) ---- *)
+
+(* at any point, whatever a remote has been sent is an ordered gap-tolerant view of the values the lane held:
+   values may have been skipped, none is invented, none comes after a newer one *)
+Theorem C01_remote_view_of_history : forall init ops r x,
+  aget r (p_rems (pexec (pipe0 init) ops)) = Some x ->
+  SS (events_of (r_sent x)) (p_hist (pexec (pipe0 init) ops)).
+Proof. exact remote_view_of_history. Qed.
+
+(* the same on the observable: the frames delivered at the remote's write completions against the initial value
+   followed by the values set; [ss] is the decision procedure the oracle runs on the implementation's frames *)
+Theorem C01_delivered_frames_are_a_view : forall init ops r,
+  ss (events_of (frames_for r ops (prun (pipe0 init) ops))) (hist_of init ops) = true.
+Proof. exact delivered_frames_are_a_view. Qed.
+
+Theorem C01_view_decision_is_exact : forall d h, ss d h = true <-> SS d h.
+Proof. exact ss_iff. Qed.
+
+(* once the lane has nothing left to report and the remote's writer is home, a remote that is owed anything has
+   the lane's current value as its last event *)
+Theorem C01_quiescent_remote_is_current : forall init ops r x b,
+  let p := pexec (pipe0 init) ops in
+  aget r (p_rems p) = Some x -> vl_dirty (p_lane p) = false -> v_home (r_up x) = true -> r_owed x = Some b ->
+  last_opt (events_of (r_sent x)) = Some (vl_content (p_lane p)).
+Proof. exact quiescent_remote_is_current. Qed.
+
+(* a remote that is linked while a change is still to be reported, and is not unlinked afterwards, has the
+   current value at the next quiescent point - whoever made the change (command or handler: both are PSet) *)
+Theorem C01_linked_remote_converges : forall init ops1 ops2 r,
+  let p1 := pexec (pipe0 init) ops1 in
+  let p2 := pexec (pipe0 init) (ops1 ++ ops2) in
+  Owes r p1 -> Forall (fun o => o <> PUnlink r) ops2 ->
+  vl_dirty (p_lane p2) = false ->
+  forall x, aget r (p_rems p2) = Some x -> v_home (r_up x) = true ->
+  last_opt (events_of (r_sent x)) = Some (vl_content (p_lane p2)).
+Proof. exact linked_remote_converges. Qed.
+
+(* the premise is met by a reachable state *)
+Theorem C01_owes_witness : Owes 1 (pexec (pipe0 [48]) [PAdd 1; PLink 1; PSet [53]]).
+Proof. exact owes_witness. Qed.
